@@ -29,9 +29,15 @@ class Check:
         self.extra = {}
         self.tlc_runs = []
         self.coverage = {}
-        with open(os.path.join(VERIF, 'known_findings.json')) as fh:
-            data = json.load(fh)
-        self.known = {f['id']: f for f in data['findings'] if f['property'] == pid and f.get('status') == 'open'}
+        findings = []
+        paths = [os.path.join(VERIF, 'known_findings.json')]
+        extra = os.path.join(VERIF, 'known_findings.d')
+        if os.path.isdir(extra):
+            paths += sorted(os.path.join(extra, n) for n in os.listdir(extra) if n.endswith('.json'))
+        for path in paths:
+            with open(path) as fh:
+                findings += json.load(fh)['findings']
+        self.known = {f['id']: f for f in findings if f['property'] == pid and f.get('status') == 'open'}
 
     @property
     def quick(self):
